@@ -92,4 +92,26 @@ theorem fp_bool_expected :
     ["67fb75d8349766cb", "38fd660175a0b712", "3e09e7f17a6a0d93", "1f7afd0b1473ed8c",
      "cecee633835296bb"] := by rfl
 
+/-! lib/compress/float.go, compress.go, lib/encoding/float.go (after the three `fix:` commits) -/
+theorem float_consts_expected :
+    (floatCompressedNull, floatCompressedOldGorilla, floatCompressedSnappy, floatCompressedGorilla,
+     floatCompressedSame, floatCompressedRLE, floatCompressMLF, floatCompressThreshold,
+     floatRLECompressThreshold, rleBlockLimit) = (0, 1, 2, 3, 4, 5, 6, 4, 8, 16384) := by rfl
+
+theorem src_generateContext_expected : src_generateContext = "{ ctx := newContext() ctx.valueCount = len(values) if ctx.valueCount <= floatCompressThreshold { return ctx } distinctCount := 1 for i := range values { if i > 0 && math.Float64bits(values[i]) != math.Float64bits(values[i-1]) { distinctCount++ } if !ctx.extremeDataValues && (math.IsNaN(values[i]) || math.IsInf(values[i], 0)) { ctx.extremeDataValues = true } } ctx.distinctCount = distinctCount if ctx.RLE() { return ctx } k := 0 lessDecimalTotal := 0 for i := 0; i < ctx.valueCount && k < ctx.valueCount/10; i++ { if values[i] == 0 { continue } k++ if ctx.intOnly && !isInt(values[i]) { ctx.intOnly = false } if lessDecimal(values[i]) { lessDecimalTotal++ } } ctx.lessDecimal = k > 0 && (100*lessDecimalTotal/k) > 90 return ctx }" := by rfl
+
+theorem src_ctxSame_expected : src_ctxSame = "{ return ctx.distinctCount == 1 && ctx.valueCount <= math.MaxUint16 }" := by rfl
+
+theorem src_ctxRLE_expected : src_ctxRLE = "{ return ctx.distinctCount <= floatRLECompressThreshold }" := by rfl
+
+theorem src_ctxSnappy_expected : src_ctxSnappy = "{ return !ctx.intOnly && ctx.lessDecimal }" := by rfl
+
+theorem src_ctxNotCompress_expected : src_ctxNotCompress = "{ return ctx.valueCount <= floatCompressThreshold }" := by rfl
+
+theorem src_sameValueEncoding_expected : src_sameValueEncoding = "{ values := util.Bytes2Uint64Slice(in) size := uint16(len(values)) out = append(out, uint8(size>>8), uint8(size&0xff)) if values[0] == 0 { return out, nil } out = append(out, in[:rle.step]...) return out, nil }" := by rfl
+
+theorem fp_float_expected :
+    [fp_floatAdaptiveEncoding, fp_floatAdaptiveDecoding, fp_floatCompressNull, fp_sameValueDecoding, fp_rleEncoding, fp_rleDecoding, fp_paddingBuffer, fp_snappyEncoding, fp_snappyDecoding, fp_gorillaEncoding, fp_gorillaDecoding, fp_encFloatEncoding, fp_encFloatDecoding] =
+    ["6cb26c9ebf1572de", "6aec8ec978dc3007", "45167b4d0331af6c", "056ce65d8f240353", "565d6a260174dcc6", "b02b88560d759df1", "6ad47c77d84e104a", "1547a0dd65f70437", "01d8b1bc86343cad", "90e6cbd7010134c6", "07219919ad790f32", "9aca60f148a21e8c", "812ccc246ef2f2f6"] := by rfl
+
 end OG.C07.Facts
